@@ -375,6 +375,68 @@ def rule_r11(facts, col, rule_id="C14.R11"):
                 % (magic, sorted("0x%08x" % c for c in cmp_consts) or "nothing"), {})
 
 
+STORERS = {"extend", "extend_from_slice", "append", "push", "insert", "splice", "extend_from_within"}
+
+
+def rule_r13(facts, col, rule_id="C14.R13"):
+    """only the bytes read are kept: where the staging buffer of a read() is stored into the block's carry buffer
+    (`extend`, `extend_from_slice`, `append`, ..), it is the sub-slice `[..n]` with n the read's result - not the whole buffer,
+    which was allocated for a full window and holds zeros behind the bytes actually read (they would be emitted as samples
+    after the real ones, and EOF only after them)."""
+    n_ = 0
+    for body in facts.impl_bodies(BLOCK_TRAIT, "work"):
+        for bb, t in body.calls_to(STD_READ):
+            if len(t["args"]) < 2 or t.get("sp", {}).get("x"):
+                continue
+            buf = body.operand_expr(t["args"][1])
+            alloc = [x for x in walk(buf) if x.k == "call" and x.q == "std::vec::from_elem"]
+            if not alloc:
+                continue
+            abb = alloc[0].bb
+            for ubb, ut in body.calls():
+                if ut["f"].get("name") not in STORERS or len(ut["args"]) < 2:
+                    continue
+                if not self_field_path(body.operand_expr(ut["args"][0])):
+                    continue
+                src = body.operand_expr(ut["args"][1])
+                if not _mentions_outside(src, abb, bb):
+                    continue
+                n_ += 1
+                key = "%s:store#%d" % (body.q, n_)
+                ok = False
+                for x in walk(src):
+                    if x.k == "call" and (x.q or "").split("::")[-1] in ("index", "index_mut") and len(x.args or []) == 2:
+                        rg = peel(x.args[1], through_try=False)
+                        if rg.k == "agg" and rg.adt in ("std::ops::RangeTo", "std::ops::Range") and rg.args:
+                            end = peel(rg.args[-1])
+                            if end.k == "call" and end.bb == bb:
+                                ok = True
+                            else:
+                                # an end that is at most the read's result: `min(size - have, n)`, a local bounded by it
+                                from . import c09 as _c09
+
+                                def bounded(e_, d=0):
+                                    pe_ = peel(e_, through_try=False)
+                                    if pe_.k == "const" and pe_.v == 0:
+                                        return True
+                                    if pe_.k == "multi" and pe_.alts and d < 3:
+                                        return all(bounded(a_, d + 1) for a_ in pe_.alts)
+                                    ubs = []
+                                    _c09._upper_bounds(e_, ubs)
+                                    return any(peel(u).k == "call" and peel(u).bb == bb and not m for u, m in ubs)
+                                if bounded(rg.args[-1]):
+                                    ok = True
+                if ok:
+                    col.ok(rule_id, key, body.where(ubb), "the carry buffer receives `[..n]` of the staging buffer, n = the read's result")
+                else:
+                    col.bad(rule_id, key, body.where(ubb),
+                            "the carry buffer receives the staging buffer without cutting it to the number of bytes read(): the buffer was "
+                            "allocated for a whole window, so the zeros behind the bytes actually read are queued as if they came from the "
+                            "file - emitted as samples after the real ones, with EOF only after them", {})
+    if n_ == 0:
+        col.ok(rule_id, "no-staging-store", "src/file_source.rs", "no staging buffer is stored into a carry buffer")
+
+
 NON_CONTENT = {"len", "is_empty", "clear", "truncate", "drain", "extend", "extend_from_slice", "push", "capacity", "reserve",
                "append", "resize", "with_capacity", "shrink_to_fit", "split_off", "take", "replace", "swap", "drop", "drop_in_place"}
 DROPPERS = {"clear", "truncate", "drain", "split_off", "take", "replace", "swap"}
@@ -504,6 +566,7 @@ rule_r2 = effects.view_fallback(rule_r2)
 rule_r4 = effects.view_fallback(rule_r4)
 rule_r5 = effects.view_fallback(rule_r5)
 rule_r10 = effects.view_fallback(rule_r10)
+rule_r13 = effects.view_fallback(rule_r13)
 
 def run(ctx):
     facts = ctx.facts("default")
@@ -525,6 +588,8 @@ def run(ctx):
     rule_r11(facts, ctx)
     ctx.ok("C14.R11", "au:scanned", "src/au.rs", "AuEncode::new and AuDecode::work located and scanned (undecided parts are listed as silent)")
     ctx.floor("C14.R11", 1, "AU header agreement: 6 instances decided today; a header built by a loop or a table is listed as not decided")
+    rule_r13(facts, ctx)
+    ctx.floor("C14.R13", 1, "staging buffers stored into a carry buffer (FileSource, SigMFSource, TcpSource today)")
     rule_r10(facts, ctx)
     ctx.floor("C14.R10", 2, "io::Read::read() staging buffers (FileSource, SigMFSource, TcpSource today; a read straight into the carry buffer is not a staging buffer)")
     c16.rule_r11(facts, ctx, rule_id="C14.R9")      # a zero-length read() reads as end of data
